@@ -286,11 +286,12 @@ def check_global(tree, fn, name, text, qual):
             hits.append(n)
         elif isinstance(n, (ast.Import, ast.ImportFrom)):
             for a in n.names:
-                if (a.asname or a.name).split(".")[0] == name or a.name == "*" and \
-                        (n.module or "").split(".")[0] not in ("abc",):
-                    pass
                 if (a.asname or a.name).split(".")[0] == name:
                     hits.append(n)
+                elif a.name == "*" and any(isinstance(t, ast.Assign) and t.lineno < n.lineno for t in tree.body
+                                           if isinstance(t, ast.Assign) and len(t.targets) == 1
+                                           and isinstance(t.targets[0], ast.Name) and t.targets[0].id == name):
+                    hits.append(n)                      # a star import AFTER the assignment could rebind the name
         elif isinstance(n, (ast.FunctionDef, ast.ClassDef)) and n.name == name:
             hits.append(n)
         elif isinstance(n, ast.Global) and name in n.names:
@@ -303,6 +304,9 @@ def check_global(tree, fn, name, text, qual):
     got = ast.unparse(tops[0].value)
     if got != text:
         raise Unsupported("the global %s is defined as `%s`, the spec pins `%s`" % (name, got, text), tops[0], qual)
+
+
+LAST_REWRITTEN = {}        # qualified name -> the FunctionDef after the tape pass (read by tools/py2coq_var_selftest.py)
 
 
 def translate_spec(repo, spec):
@@ -386,6 +390,7 @@ def translate_spec(repo, spec):
             if isinstance(n, ast.Call) and ps.call_kind(n) and not getattr(n, "_var_done", False):
                 raise Unsupported("a draw the rewriting pass did not reach", n, qual)
         ast.fix_missing_locations(node)
+        LAST_REWRITTEN[qual] = copy.deepcopy(node)
         fspec.pop("draws", None)
         fspec.pop("globals", None)
         fspec.pop("drop", None)
